@@ -104,43 +104,44 @@ Record thread := mkThread {
   t_body : nat;
   t_pc : nat;
   t_guards : list (gkind * nat);
-  t_tls : list nat                     (* thread-local keys initialised by this thread *)
+  t_tls : list nat;                    (* thread-local keys initialised by this thread *)
+  t_token : bool                       (* park_token: an unpark not yet consumed by park *)
 }.
 
 Definition thread_new (body : nat) (cont : list micro) : thread :=
-  mkThread (Runnable false) None vv_new vv_new vv_new None 0 cont body 0 [] [].
+  mkThread Runnable None vv_new vv_new vv_new None 0 cont body 0 [] [] false.
 
 Definition th_set_state (t : thread) (s : tstate) : thread :=
   mkThread s (t_op t) (t_caus t) (t_rel t) (t_dpor t) (t_last_yield t) (t_yield_count t)
-           (t_cont t) (t_body t) (t_pc t) (t_guards t) (t_tls t).
+           (t_cont t) (t_body t) (t_pc t) (t_guards t) (t_tls t) (t_token t).
 Definition th_set_op (t : thread) (o : option operation) : thread :=
   mkThread (t_state t) o (t_caus t) (t_rel t) (t_dpor t) (t_last_yield t) (t_yield_count t)
-           (t_cont t) (t_body t) (t_pc t) (t_guards t) (t_tls t).
+           (t_cont t) (t_body t) (t_pc t) (t_guards t) (t_tls t) (t_token t).
 Definition th_set_caus (t : thread) (v : vv) : thread :=
   mkThread (t_state t) (t_op t) v (t_rel t) (t_dpor t) (t_last_yield t) (t_yield_count t)
-           (t_cont t) (t_body t) (t_pc t) (t_guards t) (t_tls t).
+           (t_cont t) (t_body t) (t_pc t) (t_guards t) (t_tls t) (t_token t).
 Definition th_set_rel (t : thread) (v : vv) : thread :=
   mkThread (t_state t) (t_op t) (t_caus t) v (t_dpor t) (t_last_yield t) (t_yield_count t)
-           (t_cont t) (t_body t) (t_pc t) (t_guards t) (t_tls t).
+           (t_cont t) (t_body t) (t_pc t) (t_guards t) (t_tls t) (t_token t).
 Definition th_set_dpor (t : thread) (v : vv) : thread :=
   mkThread (t_state t) (t_op t) (t_caus t) (t_rel t) v (t_last_yield t) (t_yield_count t)
-           (t_cont t) (t_body t) (t_pc t) (t_guards t) (t_tls t).
+           (t_cont t) (t_body t) (t_pc t) (t_guards t) (t_tls t) (t_token t).
 Definition th_set_cont (t : thread) (c : list micro) : thread :=
   mkThread (t_state t) (t_op t) (t_caus t) (t_rel t) (t_dpor t) (t_last_yield t) (t_yield_count t)
-           c (t_body t) (t_pc t) (t_guards t) (t_tls t).
+           c (t_body t) (t_pc t) (t_guards t) (t_tls t) (t_token t).
 Definition th_set_pc (t : thread) (pc : nat) : thread :=
   mkThread (t_state t) (t_op t) (t_caus t) (t_rel t) (t_dpor t) (t_last_yield t) (t_yield_count t)
-           (t_cont t) (t_body t) pc (t_guards t) (t_tls t).
+           (t_cont t) (t_body t) pc (t_guards t) (t_tls t) (t_token t).
 Definition th_set_guards (t : thread) (g : list (gkind * nat)) : thread :=
   mkThread (t_state t) (t_op t) (t_caus t) (t_rel t) (t_dpor t) (t_last_yield t) (t_yield_count t)
-           (t_cont t) (t_body t) (t_pc t) g (t_tls t).
+           (t_cont t) (t_body t) (t_pc t) g (t_tls t) (t_token t).
 
 Definition th_set_tls (t : thread) (l : list nat) : thread :=
   mkThread (t_state t) (t_op t) (t_caus t) (t_rel t) (t_dpor t) (t_last_yield t) (t_yield_count t)
-           (t_cont t) (t_body t) (t_pc t) (t_guards t) l.
+           (t_cont t) (t_body t) (t_pc t) (t_guards t) l (t_token t).
 
 Definition is_runnable (t : thread) : bool :=
-  match t_state t with Runnable _ => true | _ => false end.
+  match t_state t with Runnable => true | _ => false end.
 Definition is_blocked (t : thread) : bool :=
   match t_state t with Blocked => true | _ => false end.
 Definition is_yield (t : thread) : bool :=
@@ -148,24 +149,37 @@ Definition is_yield (t : thread) : bool :=
 Definition is_terminated (t : thread) : bool :=
   match t_state t with Terminated => true | _ => false end.
 
-Definition set_runnable (t : thread) : thread := th_set_state t (Runnable false).
+Definition set_runnable (t : thread) : thread := th_set_state t Runnable.
 Definition set_blocked (t : thread) : thread := th_set_state t Blocked.
 
 (* Thread::set_yield; [me] is the thread's own id *)
 Definition set_yield (me : nat) (t : thread) : thread :=
   mkThread Yielded (t_op t) (t_caus t) (t_rel t) (t_dpor t)
            (Some (vv_get (t_caus t) me)) (S (t_yield_count t))
-           (t_cont t) (t_body t) (t_pc t) (t_guards t) (t_tls t).
+           (t_cont t) (t_body t) (t_pc t) (t_guards t) (t_tls t) (t_token t).
 
-(* Thread::set_unparked *)
+Definition th_set_token (t : thread) (b : bool) : thread :=
+  mkThread (t_state t) (t_op t) (t_caus t) (t_rel t) (t_dpor t) (t_last_yield t) (t_yield_count t)
+           (t_cont t) (t_body t) (t_pc t) (t_guards t) (t_tls t) b.
+
+(* Thread::is_parked: blocked in park (no pending operation), not on an object *)
+Definition is_parked (t : thread) : bool :=
+  is_blocked t && match t_op t with None => true | Some _ => false end.
+
+(* Thread::set_unparked: a parked thread is woken; any other live thread keeps
+   its state and remembers the unpark for its next park *)
 Definition set_unparked (t : thread) : thread :=
-  if is_blocked t || is_yield t then set_runnable t
-  else if is_runnable t then th_set_state t (Runnable true)
-  else t.
+  if is_parked t then set_runnable t
+  else if is_terminated t then t
+  else th_set_token t true.
 
 (* Thread::unpark(&mut self, unparker) *)
 Definition thread_unpark (t : thread) (unparker_caus : vv) : thread :=
   set_unparked (th_set_caus t (vv_join (t_caus t) unparker_caus)).
+
+(* Thread::notified(&mut self, notifier): woken by a Notify / join *)
+Definition thread_notified (t : thread) (notifier_caus : vv) : thread :=
+  set_runnable (th_set_caus t (vv_join (t_caus t) notifier_caus)).
 
 (* harness-level state of one declared object (what the std types inside the
    loom wrappers hold: cell content, queue, handle slots, ...) *)
